@@ -100,6 +100,15 @@ def rand_e(rng, vals, depth, lo_ok=True, big=None, p_x=0.12):
 
 def spec(e, ext=False, adds=None): return ('spec', e, ext, adds)
 
+def vals_within(kind, levels, cur, default):
+    """values of `default` that lie in the root set of the chain built so far (to keep most serial
+    constraints legal: X.680 wants the values of a serially applied constraint inside the parent)"""
+    flat = [s for lv in levels for s in lv] + list(cur)
+    if not flat: return default
+    ev = G.evaluate(kind, [flat])
+    v = [x for x in default if x in ev.root.mem]
+    return v if v else default
+
 def sizeify(rng, s):
     """turn a spec over naturals into a spec of an OCTET STRING-like type: where does SIZE go?"""
     e, ext, adds = s[1], s[2], s[3]
@@ -158,8 +167,14 @@ def gen_cases(ctx):
            ("ref", lambda a, b: [[spec(a)], [spec(b)]]),
            ("adds", lambda a, b: [[spec(a, True, b)]])]
     n_pairs = 260 if quick else len(pairs)
+    def legal(a, b):
+        ev = G.evaluate("int", [[spec(a), spec(b)]]); return not ev.illegal
+    legal_pairs = None
     for tag, f in ops:
         sel = pairs if not quick else rng.sample(pairs, n_pairs)
+        if quick and tag in ("serial", "ref"):
+            if legal_pairs is None: legal_pairs = [pr for pr in rng.sample(pairs, 1500) if legal(*pr)]
+            sel = rng.sample(legal_pairs, min(len(legal_pairs), n_pairs - 40)) + rng.sample(pairs, 40)
         if not quick and tag == "ref": sel = rng.sample(pairs, len(pairs) // 3)
         if tag == "adds": sel = rng.sample(pairs, 12 if quick else 200)
         for a, b in sel:
@@ -180,7 +195,8 @@ def gen_cases(ctx):
             ns = rng.choice([1, 1, 1, 2]) if li == 0 else rng.choice([1, 1, 1, 2])
             lv = []
             for si in range(ns):
-                e = rand_e(rng, UNIVERSE, rng.choice([1, 2, 2, 3]))
+                vals = vals_within("int", levels, lv, UNIVERSE) if rng.random() < 0.85 else UNIVERSE
+                e = rand_e(rng, vals, rng.choice([1, 2, 2, 3]))
                 t = rng.random()
                 if t < 0.12: lv.append(spec(e, True))
                 elif t < 0.125: lv.append(spec(e, True, rand_e(rng, UNIVERSE, 1)))
@@ -196,7 +212,8 @@ def gen_cases(ctx):
             ns = 1 if (ty in ("SEQOF", "SETOF") and li == 0) else rng.choice([1, 1, 2])
             lv = []
             for si in range(ns):
-                e = rand_e(rng, [0, 1, 2, 3, 4, 5, 6, 7], rng.choice([0, 1, 2]), lo_ok=True)
+                vals = vals_within("size", levels, lv, [0, 1, 2, 3, 4, 5, 6, 7]) if rng.random() < 0.85 else [0, 1, 2, 3, 4, 5, 6, 7]
+                e = rand_e(rng, vals, rng.choice([0, 1, 2]), lo_ok=True)
                 t = rng.random()
                 s = spec(e, True) if t < 0.15 else spec(e, True, rand_e(rng, [0, 1, 2, 3, 4, 5, 6, 7], 0)) if t < 0.16 else spec(e)
                 lv.append(sizeify(rng, s))
@@ -431,7 +448,7 @@ def tables_of(c):
         # no combined constraints: nothing is emitted and the skeleton's default applies
         # (INTEGER: no constraint; OCTET STRING & co: asn_DEF_OCTET_STRING_constraints = SIZE(0..MAX))
         return ("APC_UNCONSTRAINED -1 -1 0 0",
-                "APC_UNCONSTRAINED -1 -1 0 0" if c.kind == "int" else "APC_SEMI_CONSTRAINED -1 -1 0 0", "0 0 -1")
+                "APC_UNCONSTRAINED -1 -1 0 0" if c.kind == "int" or c.ty == "UTF8" else "APC_SEMI_CONSTRAINED -1 -1 0 0", "0 0 -1")
     return t
 
 def classify(c, fails):
